@@ -13,6 +13,7 @@ from fractions import Fraction
 from hypothesis import strategies as st
 
 from ..runner import Violation
+from ..guards import unchanged
 from .. import formula_ast as fa
 from .. import neutron_c03 as ng
 from ..refcalc_neutron import OUTPUTS
@@ -109,7 +110,8 @@ def base_tree(atoms):
 # ----------------------------------------------------------------------
 def _scat(obj, rho, **kw):
     E = ng.env()
-    return ng.flatten(E["pt"].neutron_scattering(obj, density=rho, **kw))
+    with unchanged("c04", {"kind": "call", "args": repr(kw)[:200]}, compound=obj if isinstance(obj, dict) else None, **kw):
+        return ng.flatten(E["pt"].neutron_scattering(obj, density=rho, **kw))
 
 
 def nonneg(res, case, what):
